@@ -188,11 +188,12 @@ Section AuthProofs.
 
   (* a login without the credential, from a peer that cannot use the internal bypass, is refused
      in EVERY state and leaves it untouched *)
-  Lemma au_bad_login_refused s internal conn now gen l :
+  Lemma au_bad_login_refused s internal conn now gen l0 lplug l :
+    au_lplug_apply lplug l0 = Some l ->
     cred_login now l = false -> internal && asp_always_pass (al_spec l) = false ->
-    exists e, step s (AuEFirst internal conn now gen (AuFLogin l)) = (s, AuORefused (AuRLogin e)).
+    exists e, step s (AuEFirst internal conn now gen (AuFLogin l0 lplug)) = (s, AuORefused (AuRLogin e)).
   Proof.
-    intros B NB. cbn.
+    intros P B NB. cbn. rewrite P.
     set (l' := au_effective_login l gen).
     assert (al_spec l' = al_spec l) as Es by (unfold l', au_effective_login; destruct (al_rid l); reflexivity).
     assert (cred_login now l' = false) as B' by (unfold l', au_effective_login; destruct (al_rid l); apply B).
@@ -200,10 +201,16 @@ Section AuthProofs.
     destruct (au_verify_login_bad (at_subjects s) now l' B') as [e E]. rewrite E. eauto.
   Qed.
 
-  Lemma au_network_login_refused s conn now gen l :
-    cred_login now l = false ->
-    exists e, step s (AuEFirst false conn now gen (AuFLogin l)) = (s, AuORefused (AuRLogin e)).
-  Proof. intros B. now apply au_bad_login_refused. Qed.
+  Lemma au_network_login_refused s conn now gen l0 lplug l :
+    au_lplug_apply lplug l0 = Some l -> cred_login now l = false ->
+    exists e, step s (AuEFirst false conn now gen (AuFLogin l0 lplug)) = (s, AuORefused (AuRLogin e)).
+  Proof. intros P B. now apply (au_bad_login_refused s false conn now gen l0 lplug l). Qed.
+
+  (* a Login plugin chain that rejects (or fails) refuses the login on every listener, flag or not *)
+  Lemma au_login_plugin_reject_refused s internal conn now gen l0 lplug :
+    au_lplug_apply lplug l0 = None ->
+    step s (AuEFirst internal conn now gen (AuFLogin l0 lplug)) = (s, AuORefused AuRLoginPlugin).
+  Proof. intros P. cbn. now rewrite P. Qed.
 
   (* any first message that is not Login / NewWorkConn / NewVisitorConn: closed, nothing changes *)
   Lemma au_other_first_refused s internal conn now gen ty :
@@ -216,8 +223,9 @@ Section AuthProofs.
     au_is_refusal (snd (step s e)) = true -> fst (step s e) = s.
   Proof.
     destruct e as [internal conn now gen m | sid now m | sid | now]; cbn.
-    - destruct m as [l | rid key ts plug | rid vm_ok | ty]; cbn.
-      + destruct (au_verify_login _ _ _ _ _ _ _); cbn; [discriminate | reflexivity].
+    - destruct m as [l lplug | rid key ts plug | rid vm_ok | ty]; cbn.
+      + destruct (au_lplug_apply lplug l) as [l1|]; cbn; [|reflexivity].
+        destruct (au_verify_login _ _ _ _ _ _ _); cbn; [discriminate | reflexivity].
       + destruct (au_find_rid rid (at_sessions s)) as [x|]; cbn; [|reflexivity].
         destruct (au_plug_apply plug key ts) as [[k' t']|]; cbn; [|reflexivity].
         destruct (au_verify_workconn _ _ _ _ _ _ _ _); cbn; [reflexivity|].
@@ -365,8 +373,9 @@ Section AuthProofs.
       e = AuELater sid now m -> au_find_sid sid (sessions s) = Some x ->
       (forall key ts, m <> AuLPing key ts) ->
       y = au_upd_proxies x p -> au_origin s e y
-  | AuLoggedIn internal conn now gen l0 subj :
-      e = AuEFirst internal conn now gen (AuFLogin l0) ->
+  | AuLoggedIn internal conn now gen l00 lplug l0 subj :
+      e = AuEFirst internal conn now gen (AuFLogin l00 lplug) ->
+      au_lplug_apply lplug l00 = Some l0 ->
       au_verify_login H oidc c (au_choose_verifier internal (al_spec (au_effective_login l0 gen)))
                       (at_subjects s) now (au_effective_login l0 gen) = AuVOk subj ->
       y = {| as_sid := at_next s; as_rid := al_rid (au_effective_login l0 gen);
@@ -379,10 +388,11 @@ Section AuthProofs.
   Lemma au_origin_step s e y : In y (sessions (fst (step s e))) -> au_origin s e y.
   Proof.
     destruct e as [internal conn now gen m | sid now m | sid | now]; cbn.
-    - destruct m as [l0 | rid key0 ts0 plug | rid vm_ok | ty]; cbn.
-      + destruct (au_verify_login _ _ _ _ _ _ _) as [subj|err] eqn:V; cbn; [|now constructor].
+    - destruct m as [l00 lplug | rid key0 ts0 plug | rid vm_ok | ty]; cbn.
+      + destruct (au_lplug_apply lplug l00) as [l0|] eqn:LP; cbn; [|now constructor].
+        destruct (au_verify_login _ _ _ _ _ _ _) as [subj|err] eqn:V; cbn; [|now constructor].
         intros [<-|I].
-        * eapply AuLoggedIn; [reflexivity | exact V | reflexivity].
+        * eapply AuLoggedIn; [reflexivity | exact LP | exact V | reflexivity].
         * apply AuKept. destruct (au_find_rid _ (sessions s)) as [old|]; [|assumption].
           cbn in I. now apply au_in_drop_sid in I.
       + destruct (au_find_rid rid (sessions s)) as [x|] eqn:F; cbn; [|now constructor].
@@ -422,7 +432,7 @@ Section AuthProofs.
   Proof.
     intros A y I. apply au_origin_step in I.
     destruct I as [I | x sid now key ts _ F _ -> | x internal conn now gen rid key0 ts0 plug key ts _ F _ _ ->
-                   | x sid now m p _ F _ -> | internal conn now gen l0 subj _ V ->].
+                   | x sid now m p _ F _ -> | internal conn now gen l00 lplug l0 subj _ LP V ->].
     - now apply A.
     - apply au_find_sid_some in F as [I _]. exact (A x I).
     - apply au_find_rid_some in F as [I _]. exact (A x I).
@@ -540,8 +550,9 @@ Section AuthProofs.
   Lemma au_wf_step s e : au_wf s -> au_wf (fst (step s e)).
   Proof.
     intros W. destruct e as [internal conn now gen m | sid now m | sid | now]; cbn.
-    - destruct m as [l0 | rid key ts plug | rid vm_ok | ty]; cbn.
-      + destruct (au_verify_login _ _ _ _ _ _ _) as [subj|err] eqn:V; cbn; [|assumption].
+    - destruct m as [l00 lplug | rid key ts plug | rid vm_ok | ty]; cbn.
+      + destruct (au_lplug_apply lplug l00) as [l0|]; cbn; [|assumption].
+        destruct (au_verify_login _ _ _ _ _ _ _) as [subj|err] eqn:V; cbn; [|assumption].
         set (l := au_effective_login l0 gen).
         assert (exists s1, s1 = match au_find_rid (al_rid l) (sessions s) with Some old => au_teardown s old | None => s end
                            /\ au_wf s1 /\ at_next s1 = at_next s /\
@@ -639,8 +650,9 @@ Section AuthProofs.
   Proof.
     intros W I A. pose proof W as (N & B & R & P).
     destruct e as [internal conn now gen m | sid now m | sid | now]; cbn in *.
-    - destruct m as [l0 | rid key ts plug | rid vm_ok | ty]; cbn.
-      + destruct (au_verify_login _ _ _ _ _ _ _) as [subj|err]; cbn; [|assumption]. right.
+    - destruct m as [l00 lplug | rid key ts plug | rid vm_ok | ty]; cbn.
+      + destruct (au_lplug_apply lplug l00) as [l0|] eqn:LP; cbn; [|assumption].
+        destruct (au_verify_login _ _ _ _ _ _ _) as [subj|err]; cbn; [|assumption]. right.
         destruct (au_find_rid _ (sessions s)) as [old|] eqn:F; [|assumption]. cbn.
         apply au_in_drop_sid. split; [assumption|]. intros Es.
         apply au_find_rid_some in F as [Io Er].
@@ -693,7 +705,7 @@ Section AuthProofs.
   Proof.
     intros (N & B & R & P) I I' Es Nl. apply au_origin_step in I'.
     destruct I' as [Ik | x0 sid now key ts -> F V -> | x0 internal conn now gen rid key0 ts0 plug key ts _ F _ _ ->
-                   | x0 sid now m p _ F _ -> | internal conn now gen l0 subj _ V ->].
+                   | x0 sid now m p _ F _ -> | internal conn now gen l00 lplug l0 subj _ LP V ->].
     - exfalso. apply Nl. f_equal. now apply (au_nodup_map_inj as_sid (sessions s)).
     - apply au_find_sid_some in F as [I0 E0]. cbn in *.
       assert (x0 = x) as -> by now apply (au_nodup_map_inj as_sid (sessions s)).
@@ -724,7 +736,7 @@ Section AuthProofs.
   Proof.
     intros (N & B & R & P) I I' Es Ic Nc. apply au_origin_step in I'.
     destruct I' as [Ik | x0 sid now key ts _ F _ -> | x0 internal conn now gen rid key0 ts0 plug key ts -> F Pl V ->
-                   | x0 sid now m p _ F _ -> | internal conn now gen l0 subj _ V ->].
+                   | x0 sid now m p _ F _ -> | internal conn now gen l00 lplug l0 subj _ LP V ->].
     - exfalso. apply Nc. now rewrite <- (au_nodup_map_inj as_sid (sessions s) x' x N Ik I Es).
     - exfalso. apply au_find_sid_some in F as [I0 _]. cbn in *.
       assert (x0 = x) as -> by now apply (au_nodup_map_inj as_sid (sessions s)). now apply Nc.
@@ -751,11 +763,11 @@ Section AuthProofs.
   Lemma au_new_session_empty s e y :
     au_wf s -> In y (sessions (fst (step s e))) -> (forall x, In x (sessions s) -> as_sid x <> as_sid y) ->
     as_pool y = [] /\ as_proxies y = [] /\
-    exists internal conn now gen l0, e = AuEFirst internal conn now gen (AuFLogin l0).
+    exists internal conn now gen l00 lplug, e = AuEFirst internal conn now gen (AuFLogin l00 lplug).
   Proof.
     intros W I' Fresh. apply au_origin_step in I'.
     destruct I' as [Ik | x0 sid now key ts _ F _ -> | x0 internal conn now gen rid key0 ts0 plug key ts _ F _ _ ->
-                   | x0 sid now m p _ F _ -> | internal conn now gen l0 subj -> V ->].
+                   | x0 sid now m p _ F _ -> | internal conn now gen l00 lplug l0 subj -> LP V ->].
     - exfalso. now apply (Fresh y).
     - exfalso. apply au_find_sid_some in F as [I0 _]. now apply (Fresh x0).
     - exfalso. apply au_find_rid_some in F as [I0 _]. now apply (Fresh x0).
@@ -767,8 +779,8 @@ Section AuthProofs.
 
   Theorem au_session_has_login_event evs x :
     In x (sessions (run evs au_init)) ->
-    exists internal conn now gen l0,
-      In (AuEFirst internal conn now gen (AuFLogin l0)) evs /\
+    exists internal conn now gen l00 lplug l0,
+      In (AuEFirst internal conn now gen (AuFLogin l00 lplug)) evs /\ au_lplug_apply lplug l00 = Some l0 /\
       as_login x = au_effective_login l0 gen /\ as_internal x = internal /\
       (cred_login now l0 = true \/ (internal = true /\ asp_always_pass (al_spec l0) = true)).
   Proof.
@@ -776,19 +788,19 @@ Section AuthProofs.
     intros y I.
     rewrite au_run_snoc in I. apply au_origin_step in I.
     assert (forall x0, In x0 (sessions (run evs au_init)) -> as_login y = as_login x0 -> as_internal y = as_internal x0 ->
-            exists internal conn now gen l0,
-              In (AuEFirst internal conn now gen (AuFLogin l0)) (evs ++ [e]) /\
+            exists internal conn now gen l00 lplug l0,
+              In (AuEFirst internal conn now gen (AuFLogin l00 lplug)) (evs ++ [e]) /\ au_lplug_apply lplug l00 = Some l0 /\
               as_login y = au_effective_login l0 gen /\ as_internal y = internal /\
               (cred_login now l0 = true \/ (internal = true /\ asp_always_pass (al_spec l0) = true))) as Old.
-    { intros x0 I0 El Ei. destruct (IH x0 I0) as (i & cn & nw & g & l0 & Ie & E1 & E2 & Cr).
-      exists i, cn, nw, g, l0. repeat split; try congruence. apply in_app_iff. now left. }
+    { intros x0 I0 El Ei. destruct (IH x0 I0) as (i & cn & nw & g & l00 & lp & l0 & Ie & Ep & E1 & E2 & Cr).
+      exists i, cn, nw, g, l00, lp, l0. repeat split; try congruence. apply in_app_iff. now left. }
     destruct I as [Ik | x0 sid now key ts _ F _ -> | x0 internal conn now gen rid key0 ts0 plug key ts _ F _ _ ->
-                   | x0 sid now m p _ F _ -> | internal conn now gen l0 subj -> V ->].
+                   | x0 sid now m p _ F _ -> | internal conn now gen l00 lplug l0 subj -> LP V ->].
     - now apply (Old y).
     - apply au_find_sid_some in F as [I0 _]. now apply (Old x0).
     - apply au_find_rid_some in F as [I0 _]. now apply (Old x0).
     - apply au_find_sid_some in F as [I0 _]. now apply (Old x0).
-    - exists internal, conn, now, gen, l0. cbn. repeat split; [apply in_app_iff; right; now left|].
+    - exists internal, conn, now, gen, l00, lplug, l0. cbn. repeat split; [apply in_app_iff; right; now left | exact LP |].
       destruct (au_choose_verifier internal (al_spec (au_effective_login l0 gen))) eqn:Cv.
       + left. assert (cred_login now (au_effective_login l0 gen) = true) as Cr
           by (apply (au_verify_login_configured (at_subjects (run evs au_init))); eauto).
@@ -817,3 +829,28 @@ Section AuthProofs.
     intros E. now apply (A x Ix Ex).
   Qed.
 End AuthProofs.
+
+(* ---- OIDC under a configured policy ---------------------------------------------------------------------- *)
+
+Lemma au_policy_unacceptable_none p t now :
+  au_token_unacceptable p t now = true -> au_oidc_policy_verify p t now = None.
+Proof.
+  unfold au_token_unacceptable, au_oidc_policy_verify. rewrite (Z.ltb_antisym (atf_valid_until t) now).
+  destruct (aop_audience p) as [|a0 ar].
+  - destruct (atf_sig_ok t), (aop_skip_issuer p), (atf_iss_ok t), (aop_skip_expiry p), (atf_valid_until t <=? now);
+      cbn; intros U; try reflexivity; discriminate.
+  - remember (bytes_eqb (a0 :: ar) (atf_aud t)) as q. clear Heqq.
+    destruct q, (atf_sig_ok t), (aop_skip_issuer p), (atf_iss_ok t), (aop_skip_expiry p), (atf_valid_until t <=? now);
+      cbn; intros U; try reflexivity; discriminate.
+Qed.
+
+(* expired / wrong-issuer / wrong-audience / foreign-key tokens are refused at login whenever the configured policy
+   does not waive that check, in every state, from every network listener *)
+Theorem au_policy_login_refused H c p tab s conn now gen l0 lplug l t :
+  ac_method c = AuOidc ->
+  au_lplug_apply lplug l0 = Some l -> tab (al_key l) = Some t -> au_token_unacceptable p t now = true ->
+  exists e, au_step H (au_oidc_of_policy p tab) c s (AuEFirst false conn now gen (AuFLogin l0 lplug)) = (s, AuORefused (AuRLogin e)).
+Proof.
+  intros M P T U. apply (au_network_login_refused H (au_oidc_of_policy p tab) c s conn now gen l0 lplug l P).
+  unfold au_login_cred_ok, au_oidc_of_policy. rewrite M, T, (au_policy_unacceptable_none p t now U). reflexivity.
+Qed.
